@@ -10,11 +10,15 @@ use std::sync::atomic;
 use std::sync::Arc;
 use std::task::{Context, Poll, Waker};
 
+/// Invoked with the key of a stream that reached its end.
+pub(crate) type StreamEndCallback<K> = Arc<dyn Fn(&K) + Send + Sync>;
+
 pub(crate) struct QueueInner<S, K: Clone> {
     counter: atomic::AtomicUsize,
     ready_queue: BinaryHeap<ReadyEvent<K>>,
     streams: HashMap<K, Pin<Box<S>>>,
     waker: Option<Waker>,
+    on_stream_end: Option<StreamEndCallback<K>>,
 }
 
 impl<S, K: Clone + Eq + Hash> QueueInner<S, K> {
@@ -132,8 +136,15 @@ where
                     return Poll::Ready(item);
                 }
                 Poll::Ready(None) => {
-                    // Peer disconnected. Don't put the stream back.
+                    // Peer disconnected. Don't put the stream back, and tell the owner (with
+                    // the lock released) so that it can let go of whatever else it holds for
+                    // this peer; nobody else ever learns that the stream has ended.
                     // Continue to poll other streams instead of returning None immediately.
+                    drop(io_stream);
+                    let on_stream_end = fair_queue.inner.lock().on_stream_end.clone();
+                    if let Some(on_stream_end) = on_stream_end {
+                        on_stream_end(&event.key);
+                    }
                     continue;
                 }
                 Poll::Pending => {
@@ -155,8 +166,14 @@ impl<S, K: Clone> FairQueue<S, K> {
                 ready_queue: BinaryHeap::new(),
                 streams: HashMap::new(),
                 waker: None,
+                on_stream_end: None,
             })),
         }
+    }
+
+    /// Registers `callback` to be called with the key of every stream that ends.
+    pub(crate) fn on_stream_end(&self, callback: impl Fn(&K) + Send + Sync + 'static) {
+        self.inner.lock().on_stream_end = Some(Arc::new(callback));
     }
 
     pub(crate) fn inner(&self) -> Arc<Mutex<QueueInner<S, K>>> {
